@@ -814,6 +814,10 @@ type Case struct {
 	// Index is the function the case is about. Without Args the case is "the module compiles".
 	Module []FnSpec `json:"module,omitempty"`
 	Index  int      `json:"index,omitempty"`
+	// Seq: a sequence function (several instructions in one function, see seq_test.go) with the
+	// operands of the failing call; Seqs: all sequence functions of a module that does not compile.
+	Seq  *SeqSpec  `json:"seq,omitempty"`
+	Seqs []SeqSpec `json:"seqs,omitempty"`
 }
 
 func fmtV(p refnum.Param, v refnum.V) string {
